@@ -144,7 +144,9 @@ DotValid(c) ==
 ---------------------------------------------------------------------------
 (* get_at / update_at: target with bracketed leaves, one coordinate tensor with a trailing/leading [n], updates *)
 TargetIns == {t \in SeqsUpTo({AxU(n) : n \in Names} \cup {AxB(n) : n \in {"h", "w"}} \cup {Fl(<<AxB("h"), AxB("w")>>)} \cup {Fl(<<AxU(x), AxB("h")>>) : x \in Names}, MaxDims)
-                : NoRepeat(ExprNames(t)) /\ BrNamesOf(t) \in {<<"h">>, <<"h", "w">>, <<"w", "h">>}}
+                : /\ NoRepeat(SelectSeq(ExprNames(t), LAMBDA n : n # "h")) /\ CountIn("h", ExprNames(t)) <= 2
+                  (* [h] [h]: two bracketed target axes may carry the same name - they are still two coordinates *)
+                  /\ BrNamesOf(t) \in {<<"h">>, <<"h", "w">>, <<"w", "h">>, <<"h", "h">>}}
 CoordLoop == {t \in SeqsUpTo({AxU(n) : n \in Names \cup {"d"}}, 2) : NoRepeat(ExprNames(t))}
 GetAt(L) ==
   UNION {UNION {UNION {
